@@ -2,6 +2,7 @@
 import os, sys
 sys.path.insert(0, os.path.dirname(os.path.dirname(os.path.abspath(__file__))))
 from fractions import Fraction as F
+from vlib.rat import INF, NINF
 from vlib import run, gen_lp, model, basis as vbasis, script as vscript
 from vlib.rat import parse
 from checks import solvefam as sf
@@ -42,7 +43,27 @@ def gen_enum_case(tier, seed, k):
         L.append("basis_dualstatus p0 b1")
         if t % 7 == 0:
             L.append("verify p0 b1 %d 0" % (t // 7 % 2))
-    return run.Case("C12-enum-%d" % k, L, dict(kind="enum", full=full)), m, bases
+    # `sloppy` twins: a nonbasic status that names a bound the column does not have.  The library moves such a column to its
+    # finite bound when it loads a basis (comment in ILLbasis_load), so the verdicts must be those of the tidy basis (or the
+    # call must fail); what it may not do is judge some third vertex.
+    sloppy = []
+    for t, (cs, rs) in enumerate(bases):
+        if len(sloppy) >= 40:
+            break
+        if cs == "-":
+            continue
+        c2 = list(cs)
+        for j, c in enumerate(m.cols):
+            if c2[j] == "0" and c.up == INF and c.lo != NINF:
+                c2[j] = "2"
+            elif c2[j] == "2" and c.lo == NINF and c.up != INF:
+                c2[j] = "0"
+        if "".join(c2) != cs:
+            sloppy.append((t, "".join(c2)))
+            L.append("make_basis b2 %d %d %s %s" % (m.ncols, m.nrows, "".join(c2), rs))
+            L.append("basis_optimalstatus p0 b2")
+            L.append("basis_dualstatus p0 b2")
+    return run.Case("C12-enum-%d" % k, L, dict(kind="enum", full=full, sloppy=sloppy)), m, bases
 
 
 def gen_ret_case(tier, seed, k):
@@ -69,9 +90,11 @@ def judge_enum(case, res, m, bases):
     evs = [e for e in res.events if e["op"] in ("basis_optimalstatus", "basis_dualstatus", "verify")]
     it = iter(evs)
     n = 0
+    tidy = {}
     for t, (cs, rs) in enumerate(bases):
         eo = next(it)
         ed = next(it)
+        tidy[t] = (eo, ed)
         ev = next(it) if t % 7 == 0 else None
         E = vbasis.evaluate(m, cs if cs != "-" else "", rs if rs != "-" else "")
         if not E["valid"]:
@@ -119,6 +142,20 @@ def judge_enum(case, res, m, bases):
                         V.append(("C12|verify|prestep-unjustified", "QSexact_verify(prestep) answered 1 with dobjval %s for %s, which is neither its dual objective nor the LP optimum" % (ev["dobjval"], desc)))
         if len(V) > 5:
             break
+    if len(V) <= 5 and len(tidy) == len(bases):
+        for t, c2 in (case.meta or {}).get("sloppy", []):
+            try:
+                so, sd = next(it), next(it)
+            except StopIteration:
+                break
+            eo, ed = tidy[t]
+            C["sloppy-twins"] = C.get("sloppy-twins", 0) + 1
+            if so.get("rc") == 0 and eo.get("rc") == 0 and so.get("result") != eo.get("result"):
+                V.append(("C12|sloppy-status|optimalstatus-differs", "basis c=%s judged %r, the same basis with the column moved to its only finite bound (c=%s) judged %r" % (
+                    c2, so.get("result"), bases[t][0], eo.get("result"))))
+            if sd.get("rc") == 0 and ed.get("rc") == 0 and (sd.get("result"), sd.get("dobjval") if sd.get("result") == 1 else None) != (ed.get("result"), ed.get("dobjval") if ed.get("result") == 1 else None):
+                V.append(("C12|sloppy-status|dualstatus-differs", "basis c=%s: dual verdict %r/%s, tidy basis c=%s: %r/%s" % (
+                    c2, sd.get("result"), sd.get("dobjval"), bases[t][0], ed.get("result"), ed.get("dobjval"))))
     return V, C, n
 
 
